@@ -7,15 +7,17 @@
 (*                                                                         *)
 (* Transcribed functions (names as in cg.py):                               *)
 (*   run_batched_cg : mult = ||b|| per column, b_norm = do_safe_div(b,mult),*)
-(*                    initialize(A, b_norm, P, x0)  -- x0 is NOT rescaled -- *)
-(*                    ..., returned solution = state.x * mult               *)
+(*                    x0 = x0 / where(mult == 0, 1, mult),                  *)
+(*                    initialize(A, b_norm, P, x0), ...,                    *)
+(*                    returned solution = state.x * mult                    *)
 (*   initialize, take_cg_step, update_alpha, update_gamma_beta, do_safe_div *)
 (* Abstractions (stated in the evidence):                                   *)
 (*   - "|d| < 1e-40" of do_safe_div and "||r|| < 1e-40" of the converged    *)
 (*     mask are the exact tests d = 0 / r = 0 (no non-zero quantity of the  *)
-(*     catalog is that small);  num / 1e-40 with num # 0 is not             *)
-(*     representable: the model records that it happened (SafeDivOK) and    *)
-(*     an invariant of MC_CG says it never does for definite A and M.       *)
+(*     catalog is that small).  do_safe_div returns 0 for a zero            *)
+(*     denominator whatever the numerator; the model records whether a     *)
+(*     NON-zero numerator was ever discarded that way (SafeDivOK) and an    *)
+(*     invariant of MC_CG says it never is for definite A and M.            *)
 (*   - every right-hand-side column is one record (x, r, p, gamma, alpha,   *)
 (*     beta): the code's reductions are all over axis -2 with keepdims, so  *)
 (*     columns never mix; that the real code agrees column by column is     *)
@@ -95,12 +97,14 @@ VEq(u, v) == MNormalize(u) = MNormalize(v)
 ---------------------------------------------------------------------------
 (* cg.py, function by function *)
 
-\* do_safe_div(num, denom): denom replaced by 1e-40 when |denom| < 1e-40
+\* do_safe_div(num, denom) = where(|denom| < 1e-40, 0, num / denom)
 SafeDivOK(num, den) == ~QIsZero(den) \/ QIsZero(num)
-SafeDiv(num, den) == IF QIsZero(den) THEN QZ ELSE QDivR(num, den)     \* 0 / 1e-40 = 0 ; see SafeDivOK
+SafeDiv(num, den) == IF QIsZero(den) THEN QZ ELSE QDivR(num, den)
 \* b_norm = do_safe_div(b, mult)
-NormaliseRhs(b, mult) == IF QIsZero(mult) THEN b ELSE VScale(QInvR(mult), b)
+NormaliseRhs(b, mult) == IF QIsZero(mult) THEN VZero(b.r) ELSE VScale(QInvR(mult), b)
 NormaliseOK(b, mult) == ~QIsZero(mult) \/ VIsZero(b)
+\* x0 = x0 / where(mult == 0, 1, mult)
+NormaliseX0(x0, mult) == IF QIsZero(mult) THEN x0 ELSE VScale(QInvR(mult), x0)
 
 \* initialize(A, b, preconditioner, x0)
 Initialize(A, M, bn, x0) ==
